@@ -53,6 +53,17 @@ CONTROLS = [
     ("C18", "vector parts in parentheses separated by semicolons", "src/derivative.rs", 'write!(f, "[{}]", x.join(", "))?', 'write!(f, "({})", x.join("; "))?'),
     ("C18", "HyperHyperDual: one part per line", "src/hyperhyperdual.rs", '"{} + {}ε1 + {}ε2 + {}ε3 + {}ε1ε2 + {}ε1ε3 + {}ε2ε3 + {}ε1ε2ε3"', '"{}\\n + {}ε1\\n + {}ε2\\n + {}ε3\\n + {}ε1ε2\\n + {}ε1ε3\\n + {}ε2ε3\\n + {}ε1ε2ε3"'),
     ("C18", "optional parts joined with a comma instead of a plus", "src/derivative.rs", '            write!(f, " + ")?;', '            write!(f, ", ")?;'),
+    # independent property-preserving changes (seeded/keep-*): streamed / inline-matrix rendering, buffered single write,
+    # parentheses around nested parts, brackets for one-element parts; refactored operators, single conversion of driver
+    # inputs with other exception types, lenient callback results, fixed-size dispatch only up to 6
+    ("C18", "keep-C18p-1", "@patch", "/verif/seeded/keep-C18p-1/patch.diff", None),
+    ("C18", "keep-C18p-2", "@patch", "/verif/seeded/keep-C18p-2/patch.diff", None),
+    ("C18", "keep-C18p-3", "@patch", "/verif/seeded/keep-C18p-3/patch.diff", None),
+    ("C18", "keep-C18p-4", "@patch", "/verif/seeded/keep-C18p-4/patch.diff", None),
+    ("C17", "keep-C17p-1", "@patch", "/verif/seeded/keep-C17p-1/patch.diff", None),
+    ("C17", "keep-C17p-2", "@patch", "/verif/seeded/keep-C17p-2/patch.diff", None),
+    ("C17", "keep-C17p-3", "@patch", "/verif/seeded/keep-C17p-3/patch.diff", None),
+    ("C17", "keep-C17p-4", "@patch", "/verif/seeded/keep-C17p-4/patch.diff", None),
 ]
 
 
@@ -111,12 +122,18 @@ def main():
             continue
         full = f"{REPO}/{path}"
         try:
-            src = open(full, encoding="utf-8").read()
-            if src.count(old) != 1:
-                print(f"SKIP control {name}: anchor text occurs {src.count(old)} times")
-                ok = False
-                continue
-            open(full, "w", encoding="utf-8").write(src.replace(old, new))
+            if path == "@patch":
+                if sh(["git", "-C", REPO, "apply", old]).returncode != 0:
+                    print(f"SKIP control {name}: {old} does not apply")
+                    ok = False
+                    continue
+            else:
+                src = open(full, encoding="utf-8").read()
+                if src.count(old) != 1:
+                    print(f"SKIP control {name}: anchor text occurs {src.count(old)} times")
+                    ok = False
+                    continue
+                open(full, "w", encoding="utf-8").write(src.replace(old, new))
             r = sh(["/verif/check.sh", prop, "quick"])
             good = r.returncode == 0 and "VIOLATION" not in r.stdout
             ok &= good
@@ -124,6 +141,7 @@ def main():
             print(f"{'ok  ' if good else 'FALSE ALARM'} {prop} control (must pass): {name}: exit {r.returncode} {line[:160] if not good else ''}")
         finally:
             sh(["git", "-C", REPO, "checkout", "--", "."])
+            sh(["git", "-C", REPO, "clean", "-fdq", "src"])
     sh(["rm", "-rf", "/verif/replays"])
     print("sensitivity:", "every mutant detected, every control silent" if ok else "NOT as expected")
     sys.exit(0 if ok else 1)
